@@ -235,7 +235,7 @@ class Queue(Greenlet):
         self.relay = relay
         self.backoff = backoff or self._default_backoff
         self.bounce_factory = bounce_factory or Bounce
-        self.bounce_queue = bounce_queue or self
+        self.bounce_queue = self if bounce_queue is None else bounce_queue
         self.wake = Event()
         self.queued = []
         self.active_ids = set()
